@@ -411,6 +411,13 @@ def notifySites : Stmt → List (Meth × Cv)
   | .seq a b | .branch a b | .tryc a b => notifySites a ++ notifySites b
   | _ => []
 
+/-- write sites: (method, attribute) -/
+def writeSites : Stmt → List (Meth × Attr)
+  | .write m a => [(m, a)]
+  | .withLock _ s | .loop s => writeSites s
+  | .seq a b | .branch a b | .tryc a b => writeSites a ++ writeSites b
+  | _ => []
+
 /-- methods called (by reference) in a statement -/
 def callees : Stmt → List Meth
   | .call m | .reenter m => [m]
